@@ -289,17 +289,19 @@ fn chk(out: &mut Shards, id: usize, t: &mut Td, rng: &mut Rng) -> bool {
                 "rmin1e6":0,"rmax1e6":1000000,"cmin":0,"cmax":0});
         }
         // grids
-        let span = if max > min { max - min } else { 1.0 };
         let nv = 40;
-        let mut vs: Vec<f64> = (0..=nv).map(|i| min + span * (i as f64) / nv as f64).collect();
+        // convex combinations: max - min may overflow for values near +-f64::MAX
+        let lerp = |t: f64| if max > min { min * (1.0 - t) + max * t } else { min + t };
+        let mut vs: Vec<f64> = (0..=nv).map(|i| lerp(i as f64 / nv as f64)).collect();
         for c in cs.iter().take(10) {
             vs.push(c.0);
         }
         vs.push(min);
         vs.push(max);
         vs.sort_by(|a, b| a.partial_cmp(b).unwrap());
+        vs.retain(|v| !v.is_nan());
         let rs: Vec<f64> = vs.iter().map(|&v| t.d.rank(v).unwrap()).collect();
-        let far = min.abs() + max.abs() + 1.0;
+        let far = (min.abs() + max.abs() + 1.0).min(f64::MAX);
         let rbelow = t.d.rank(min - far).unwrap();
         let rabove = t.d.rank(max + far).unwrap();
         let nq = 40;
@@ -318,7 +320,8 @@ fn chk(out: &mut Shards, id: usize, t: &mut Td, rng: &mut Rng) -> bool {
         rr.extend(rs.iter());
         let rr_r = ranks(&rr);
         // cdf / pmf consistency on sorted distinct split points
-        let mut sp: Vec<f64> = (1..8).map(|i| min + span * i as f64 / 8.0).collect();
+        let mut sp: Vec<f64> = (1..8).map(|i| lerp(i as f64 / 8.0)).collect();
+        sp.sort_by(|a, b| a.partial_cmp(b).unwrap());
         sp.dedup();
         let cdf = t.d.cdf(&sp).unwrap();
         let pmf = t.d.pmf(&sp).unwrap();
@@ -340,7 +343,8 @@ fn chk(out: &mut Shards, id: usize, t: &mut Td, rng: &mut Rng) -> bool {
             maxatom = maxatom.max(w);
             i = j;
         }
-        let rq: Vec<i64> = qs.iter().map(|&x| (t.d.rank(x).unwrap() * 1e6).round() as i64).collect();
+        // (rank's documented precondition: the argument is not NaN)
+        let rq: Vec<i64> = qs.iter().map(|&x| if x.is_nan() { -1 } else { (t.d.rank(x).unwrap() * 1e6).round() as i64 }).collect();
         let q6: Vec<i64> = qgrid.iter().map(|&q| (q * 1e6).round() as i64).collect();
         let res6 = ((maxatom as f64 / tw as f64) * 1e6).ceil() as i64 + 2;
         let _ = rng;
@@ -381,6 +385,10 @@ fn gen_value(rng: &mut Rng, shape: u8, i: usize, n: usize) -> f64 {
             let s = if rng.chance(1, 2) { -1.0 } else { 1.0 };
             s * (1.0 + rng.f64()) * 10f64.powi(e)
         }
+        7 => {
+            let s = if rng.chance(1, 2) { -1.0 } else { 1.0 };      // opposite signs near f64::MAX
+            s * (1.5e308 + rng.f64() * 0.2e308)
+        }
         _ => 42.0,                                                // all equal
     }
 }
@@ -414,7 +422,8 @@ fn feed(out: &mut Shards, id: usize, t: &mut Td, rng: &mut Rng, shape: u8, n: us
 }
 
 fn scenario(out: &mut Shards, rng: &mut Rng, k: u16, shape: u8, n: usize, merges: usize) {
-    out.next_run("td-stream");
+    // shape 7 (finite values of opposite sign above f64::MAX / 2) is its own scenario class
+    out.next_run(if shape == 7 { "td-stream-maxmag" } else { "td-stream" });
     let mut ds: Vec<Td> = vec![];
     let mk = |out: &mut Shards, ds: &mut Vec<Td>| {
         let id = ds.len();
@@ -437,7 +446,7 @@ fn scenario(out: &mut Shards, rng: &mut Rng, k: u16, shape: u8, n: usize, merges
     // merge tree
     for m in 0..merges {
         let o = mk(out, &mut ds);
-        let shape2 = if m % 2 == 0 { shape } else { rng.below(7) as u8 };
+        let shape2 = if m % 2 == 0 || shape == 7 { shape } else { rng.below(7) as u8 };
         let cnt = 1 + rng.below((n as u64 / 3).max(2)) as usize;
         if !feed(out, o, &mut ds[o], rng, shape2, cnt) {
             return;
@@ -504,7 +513,7 @@ pub fn record(args: &Args) {
     let ks: Vec<u16> = if thorough { vec![10, 11, 20, 29, 30, 31, 50, 100, 200, 350, 500] } else { vec![10, 29, 30, 100, 200, 500] };
     for _ in 0..reps {
         for &k in &ks {
-            for shape in 0..7u8 {
+            for shape in 0..8u8 {
                 let n = if thorough { *rng.pick(&[1usize, 2, 5, 100, 3000, 40000, 200000]) } else { *rng.pick(&[1usize, 2, 3, 50, 1000, 12000]) };
                 let merges = if n > 50000 { 1 } else { rng.below(5) as usize };
                 scenario(&mut out, &mut rng, k, shape, n, merges);
